@@ -17,6 +17,7 @@ set_option linter.unusedVariables false
 set_option linter.unusedSimpArgs false
 
 open C03Lemmas
+open scoped C01
 namespace C05
 open Generated.C05
 
